@@ -150,6 +150,16 @@ def strip_casts(ex, t):
     return rewrite(t, f)
 
 
+def _residues(t, b, mod) -> bool:
+    """t, as a function of the loop variable b, is (mod + b) % mod for every modulus 1..7 and b up to 2*mod+1"""
+    from ..logic import NotEvaluable, evalt
+
+    try:
+        return all(int(evalt(t, {b: i, mod: mo})) == i % mo for mo in range(1, 8) for i in range(0, 2 * mo + 2))
+    except (NotEvaluable, TypeError, KeyError):
+        return False
+
+
 def check_mod_add(ctx, pid="C27"):
     """mod_add / mod_incr idioms: power-of-two split and wrap cases covering exactly mod .. mod+max_incr-1."""
     from ..pyfacts import Fn, py_guard
@@ -199,11 +209,13 @@ def check_mod_add(ctx, pid="C27"):
                 if len(lc) == 1 and len(dflt) == 1:
                     b, it, conds = lc[0][3][0]
                     elt = lc[0][2]
-                    okc = (elt[0] == "tuple" and lin_equal(elt[1], ("op", "+", mod, b)) and elt[2] == b and not conds
+                    # the residue of mod + i is i % mod (plain `i` is the residue only while i < mod: with max_incr > mod
+                    # the sums of 2*mod and above came out unreduced, F15)
+                    okc = (elt[0] == "tuple" and lin_equal(elt[1], ("op", "+", mod, b)) and _residues(elt[2], b, mod) and not conds
                            and it in (("call", ("n", "range"), (("c", 0), mx), ()), ("call", ("n", "range"), (mx,), ()))
                            and dflt[0] == ("list", ("tuple", ("c", None), m["x"])))
             ctx.check(ok and okc, f"{pid}.mod-add-wrap", r.site, "mod_add.wrap-cases", found=tstr(r.value)[:240],
-                      required="SwitchValue(sig + incr, [(mod + i, i) for i < max_incr] + [(None, sig + incr)]): wrap exactly the sums mod..mod+max_incr-1, else the plain sum")
+                      required="SwitchValue(sig + incr, [(mod + i, i % mod) for i < max_incr] + [(None, sig + incr)]): every sum mod..mod+max_incr-1 is replaced by its residue, else the plain sum")
             n_ok += 1
     ctx.floor(pid, "mod_add returns", n_ok, 2, fn.site)
 
